@@ -110,12 +110,17 @@ func c09Body(p c09Params, out *c09Obs) func() {
 		out.errs = make([][]error, n)
 		fin := make(chan int, n+1)
 		out.startStep = vrt.Steps()
-		vrt.GoNamed("h:events", func() {
+		spawn := vrt.GoNamed
+		if p.evStep != 0 {
+			// an interrupt: the events thread runs exactly at that step of the execution
+			late := false
+			tm := vrt.AfterFunc(time.Hour, func() { late = true })
+			spawn = func(name string, f func()) {
+				vrt.GoInterrupt(name, func() bool { return late || (p.evStep > 0 && vrt.Steps() >= p.evStep) }, func() { tm.Stop(); f() })
+			}
+		}
+		spawn("h:events", func() {
 			if p.evStep != 0 {
-				late := false
-				tm := vrt.AfterFunc(time.Hour, func() { late = true })
-				vrt.AwaitFirst("h:event-at-step", func() bool { return late || (p.evStep > 0 && vrt.Steps() >= p.evStep) })
-				tm.Stop()
 				if p.evStep < 0 {
 					w.releaseHolds()
 					vrt.Send(fin, -1)
@@ -239,7 +244,7 @@ func c09Units(thorough bool) []*explore.Unit {
 		}
 		add(c09Params{layout: layout, callers: [][]string{{"a"}, {"x"}, {"a"}}, event: "connreset", evAfter: 1, hold: "a", warm: []string{"a"}}, 1)
 		// every event at every scheduling step of a cold burst (two callers) and of two
-		// callers with region A known (vrt.AwaitFirst: the position is a unit parameter)
+		// callers with region A known (vrt.GoInterrupt: the position is a unit parameter)
 		for _, base := range []c09Params{{layout: layout, callers: two, evAfter: -1}, {layout: layout, callers: same, evAfter: -1}, {layout: layout, callers: two, warm: []string{"a"}, evAfter: -1}} {
 			probe := base
 			probe.evStep, probe.event = -1, "move"
@@ -341,7 +346,7 @@ func init() {
 		Race: c09Race,
 		ID:   "C09", Level: "model_checking",
 		Technique:   "stateless model checking of the real top-level client (availability channels, establishers, connection cache) over a simulated cluster: concurrent callers x faults x fault positions x all schedules up to a deviation bound; plus a separate free-running -race pass of the same bodies (sampling, reported as such)",
-		Rule:        "units = layout {two regions on one shared connection, on two servers, three regions on two servers} x 2-3 concurrent callers (distinct / same / crossing keys) x fault {connection reset, crash with reassignment, NSRE bursts on one region or the whole table, split, split with the daughter still opening, merge, server-stopped exception, move} x {cold burst, warm cache with one request held in flight and the fault fired after the k-th server-side attempt, k=0..3}; every schedule with <=2 deviations for cold bursts, <=1 for positioned faults (thorough: 2-3). Oracle: no panic in any thread (a double release is 'close of nil channel'), every request returns successfully, and once the cluster is stable no cached region is marked unavailable and no client thread is still running. Non-trivial = at least one non-default scheduling choice. Additionally every event fires at EVERY scheduling step of a cold burst of two callers (different regions / the same key) and of two callers with one region known, in all three layouts (vrt.AwaitFirst: the event's thread becomes the default choice at that step, so its position is a parameter of the unit and costs no deviation), with <=1 (thorough 2) further deviations.",
+		Rule:        "units = layout {two regions on one shared connection, on two servers, three regions on two servers} x 2-3 concurrent callers (distinct / same / crossing keys) x fault {connection reset, crash with reassignment, NSRE bursts on one region or the whole table, split, split with the daughter still opening, merge, server-stopped exception, move} x {cold burst, warm cache with one request held in flight and the fault fired after the k-th server-side attempt, k=0..3}; every schedule with <=2 deviations for cold bursts, <=1 for positioned faults (thorough: 2-3). Oracle: no panic in any thread (a double release is 'close of nil channel'), every request returns successfully, and once the cluster is stable no cached region is marked unavailable and no client thread is still running. Non-trivial = at least one non-default scheduling choice. Additionally every event fires at EVERY scheduling step of a cold burst of two callers (different regions / the same key) and of two callers with one region known, in all three layouts (vrt.GoInterrupt: the event's thread is created waiting for that step and is the default choice there, so its position is a parameter of the unit and costs no deviation), with <=1 (thorough 2) further deviations.",
 		Assumptions: []string{"tier L (simulated region clients)", "the data-race clause is covered only by the free-running -race pass (sampling)"},
 		Quick:       150 * time.Second, Thorough: 30 * time.Minute,
 		Units: c09Units,
